@@ -411,6 +411,11 @@ pub fn gen_plan(rng: &mut Rng, prof: &Profile, thorough: bool) -> Plan {
             x.hash_hex_override = Some(hex::encode(h));
         }
         x.label = ref_label(&x.htlc_hash, &x.onion_scid, &x.forward_msat, &x.metadata, cfg.allow_self);
+        if x.hash_hex_override.is_some() && matches!(x.label, RefLabel::Tramp { .. } | RefLabel::FailClassify) {
+            // the hash actually sent is not the 32-byte hash the label was computed from: it can
+            // never equal the invoice's hash
+            x.label = RefLabel::NotTramp;
+        }
         // right after the honest HTLC, or at the end
         let pos = if rng.chance(1, 2) { htlcs.iter().position(|h| h.uid == src.uid).map(|p| p + 1).unwrap_or(htlcs.len()) } else { htlcs.len() };
         htlcs.insert(pos, x);
